@@ -4,6 +4,7 @@ cd /verif
 for d in seeded/*/; do
   n=$(basename $d)
   case $n in
+    W*-C*-[0-9]) label=${n%%-*}; rest=${n#*-}; pid=${rest%-*}; k=${rest#*-}; python3 tools/seeded.py $pid $k --label $label --multi 2>&1 | grep "^SEEDED\|HARNESS" ;;
     W*) pid=${n#*-}; label=${n%%-*}; python3 tools/seeded.py $pid 1 --label $label 2>&1 | grep "^SEEDED\|HARNESS" ;;
     *)  pid=${n%-*}; k=${n#*-}; python3 tools/seeded.py $pid $k 2>&1 | grep "^SEEDED\|HARNESS" ;;
   esac
